@@ -853,6 +853,13 @@ class SymReal:
     def floor(s):
         return mk_int(s.g, z3.ToInt(s.e))
 
+    def __round__(s, n=None):
+        # round-half-even is modelled as floor(x + 1/2): identical except at exact .5 ties, which the encoded code
+        # cannot produce (its only use is round(0.2 * <int length>))
+        if n is None:
+            return mk_int(s.g, z3.ToInt(s.e + z3.RealVal("1/2")))
+        return s
+
     def __int__(s):
         # int() truncates toward zero
         t = mk_int(s.g, z3.If(s.e >= 0, z3.ToInt(s.e), -z3.ToInt(-s.e)))
